@@ -254,6 +254,8 @@ struct Spec {
     /// sheets: list of cells (col,row,value); `active` is the sheet exported
     sheets: Vec<Vec<(u32, u32, V)>>,
     active: usize,
+    /// cells of the active sheet that were written and then taken away again with remove_cell (not part of the sheet)
+    removed: Vec<(u32, u32)>,
 }
 fn specs() -> Vec<Spec> {
     let mut v = vec![];
@@ -275,7 +277,7 @@ fn specs() -> Vec<Spec> {
                 }
             }
         }
-        v.push(Spec { kind: format!("presence:{:09b}", m), sheets: vec![cells], active: 0 });
+        v.push(Spec { kind: format!("presence:{:09b}", m), sheets: vec![cells], active: 0, removed: vec![] });
     }
     // (2) each special value at each of 4 positions, neighbours absent / present
     for (name, val) in SPECIALS.iter() {
@@ -292,7 +294,7 @@ fn specs() -> Vec<Spec> {
                     }
                 }
                 cells.push((pc, pr, val.clone()));
-                v.push(Spec { kind: format!("single:{}@{},{}:{}", name, pc, pr, if neighbours { "full" } else { "alone" }), sheets: vec![cells], active: 0 });
+                v.push(Spec { kind: format!("single:{}@{},{}:{}", name, pc, pr, if neighbours { "full" } else { "alone" }), sheets: vec![cells], active: 0, removed: vec![] });
             }
         }
     }
@@ -302,19 +304,37 @@ fn specs() -> Vec<Spec> {
             for horizontal in [true, false] {
                 let second = if horizontal { (2, 1) } else { (1, 2) };
                 let cells = vec![(1, 1, v1.clone()), (second.0, second.1, v2.clone())];
-                v.push(Spec { kind: format!("pair:{}|{}:{}", n1, n2, if horizontal { "row" } else { "column" }), sheets: vec![cells], active: 0 });
+                v.push(Spec { kind: format!("pair:{}|{}:{}", n1, n2, if horizontal { "row" } else { "column" }), sheets: vec![cells], active: 0, removed: vec![] });
             }
+        }
+    }
+    // (5) histories: every presence pattern with ONE more cell that was written and removed again (inside the 3x3
+    // block or beyond it to the right / below): the highest used row/column is that of what is left
+    for m in 0u32..512 {
+        let mut cells = vec![];
+        for r in 1..=3u32 {
+            for c in 1..=3u32 {
+                if m & (1 << ((r - 1) * 3 + (c - 1))) != 0 {
+                    cells.push((c, r, V::Pos));
+                }
+            }
+        }
+        for (xc, xr) in [(1u32, 1u32), (2, 1), (3, 1), (1, 2), (2, 2), (3, 2), (1, 3), (2, 3), (3, 3), (4, 2), (2, 4), (5, 5)] {
+            if cells.iter().any(|(c, r, _)| (*c, *r) == (xc, xr)) {
+                continue;
+            }
+            v.push(Spec { kind: format!("removed:{:09b}-{},{}", m, xc, xr), sheets: vec![cells.clone()], active: 0, removed: vec![(xc, xr)] });
         }
     }
     // (4) active sheet is not the first one / not the last one
     let target = vec![(1, 1, V::Pos), (3, 2, V::Text("abc")), (2, 3, V::Pos)];
     let decoy_big = vec![(1, 1, V::Text("decoy")), (4, 4, V::Text("decoy"))];
     let decoy_small = vec![(1, 1, V::Text("decoy"))];
-    v.push(Spec { kind: "active:second-of-2".into(), sheets: vec![decoy_big.clone(), target.clone()], active: 1 });
-    v.push(Spec { kind: "active:third-of-3".into(), sheets: vec![decoy_big.clone(), decoy_small.clone(), target.clone()], active: 2 });
-    v.push(Spec { kind: "active:second-of-3".into(), sheets: vec![decoy_small.clone(), target.clone(), decoy_big.clone()], active: 1 });
-    v.push(Spec { kind: "active:first-of-3".into(), sheets: vec![target.clone(), decoy_big.clone(), decoy_small.clone()], active: 0 });
-    v.push(Spec { kind: "active:empty-second-of-2".into(), sheets: vec![decoy_big, vec![]], active: 1 });
+    v.push(Spec { kind: "active:second-of-2".into(), sheets: vec![decoy_big.clone(), target.clone()], active: 1, removed: vec![] });
+    v.push(Spec { kind: "active:third-of-3".into(), sheets: vec![decoy_big.clone(), decoy_small.clone(), target.clone()], active: 2, removed: vec![] });
+    v.push(Spec { kind: "active:second-of-3".into(), sheets: vec![decoy_small.clone(), target.clone(), decoy_big.clone()], active: 1, removed: vec![] });
+    v.push(Spec { kind: "active:first-of-3".into(), sheets: vec![target.clone(), decoy_big.clone(), decoy_small.clone()], active: 0, removed: vec![] });
+    v.push(Spec { kind: "active:empty-second-of-2".into(), sheets: vec![decoy_big, vec![]], active: 1, removed: vec![] });
     v
 }
 fn value_text(v: &V, c: u32, r: u32, enc: Enc) -> String {
@@ -346,6 +366,15 @@ fn build(spec: &Spec, enc: Enc) -> umya_spreadsheet::Spreadsheet {
                     cell.set_value_string(value_text(v, *c, *r, enc));
                 }
             }
+        }
+    }
+    {
+        let ws = book.get_sheet_mut(&spec.active).unwrap();
+        for (c, r) in &spec.removed {
+            ws.get_cell_mut((*c, *r)).set_value_string("to be removed");
+        }
+        for (c, r) in &spec.removed {
+            ws.remove_cell((*c, *r));
         }
     }
     book.set_active_sheet(spec.active as u32);
@@ -618,7 +647,7 @@ fn run(ctx: &Ctx) -> i32 {
             spaces,
             cfg: PoolCfg { chunk: 4, case_timeout: std::time::Duration::from_secs(60), ..Default::default() },
             level: "exploration",
-            rule: "every sheet specification (all 512 presence patterns of a 3x3 grid with position-distinct text, a number and a boolean; each of 13 special values at each of the 9 positions with neighbours absent/present; every ordered pair of special values side by side and one above the other; 5 multi-sheet workbooks whose active sheet is not the first / not the last / empty) x every option combination (10 encodings x trim x wrap). Per export: bytes from writer::csv::write_writer are decoded with the selected encoding (own option->label mapping, encoding_rs decoders without replacement, hand-written UTF-16LE/BE decoder), parsed by the harness's RFC-4180 parser (delimiter ',', quote = wrap char, no quoting when none; CRLF/LF/CR record ends) and compared with the grid rows 1..max_row x columns 1..max_col of the active sheet (values trimmed of blanks/tabs when trim is on). distinct_nontrivial = distinct byte outputs".into(),
+            rule: "every sheet specification (all 512 presence patterns of a 3x3 grid with position-distinct text, a number and a boolean; each of 13 special values at each of the 9 positions with neighbours absent/present; every ordered pair of special values side by side and one above the other; 5 multi-sheet workbooks whose active sheet is not the first / not the last / empty; every presence pattern with one more cell - inside the block or beyond it - that was written and removed again with remove_cell) x every option combination (10 encodings x trim x wrap). Per export: bytes from writer::csv::write_writer are decoded with the selected encoding (own option->label mapping, encoding_rs decoders without replacement, hand-written UTF-16LE/BE decoder), parsed by the harness's RFC-4180 parser (delimiter ',', quote = wrap char, no quoting when none; CRLF/LF/CR record ends) and compared with the grid rows 1..max_row x columns 1..max_col of the active sheet (values trimmed of blanks/tabs when trim is on). distinct_nontrivial = distinct byte outputs".into(),
             alphabets: json!({"sheet_specs": n, "special_values": SPECIALS.iter().map(|(n, v)| json!({"name": n, "value": match v { V::Text(t) => t.to_string(), _ => "per-encoding word".to_string() }})).collect::<Vec<_>>(),
                 "encodings": ENCS.iter().map(|e| e.name()).collect::<Vec<_>>(), "trim": [false, true], "wrap": ["none", "\"", "'"], "option_combinations": options().len()}),
             bounds: json!({"grid": "3x3 (multi-sheet decoys up to 4x4)", "values_per_pair_sheet": 2, "both_tiers": "identical (the whole space runs in a few seconds)"}),
